@@ -2,9 +2,22 @@
 C08: the length bookkeeping of the modelled functions — a result either fits the storage it is written to
 (capacity `cfg.cap` digits of a bn, the caller's recoding / byte / character buffer) or the function reports an
 error (`none` / `.error`) and produces nothing.
+
+STATEMENTS REPAIRED (each with a kernel-checked counterexample to the original statement below):
+* `bnAdd_fits`, `bnSub_fits`, `bnMulBasic_fits`, `bnMulComba_fits`, `bnSqrBasic_fits`, `bnLsh_fits`:
+  conclusion `c.used ≤ cfg.cap` replaced by `c.used ≤ max cfg.cap 1`. `bn_trim` writes the single digit 0 for a zero
+  result, so with `cfg.cap = 0` and empty operands the result has `used = 1 > 0`. For `0 < cfg.cap` the two forms
+  coincide (`le_cap_of_pos`). `bnDbl_fits` and `bnMulDig_fits` hold as stated (their guard is `used + 1`).
+* `recWin_fits`: holds as stated for `0 < w` once the model mirrors the C guard for the zero scalar (`*len < 1` is
+  refused); the window width 0 is outside the interface (the C code divides by it).
+* `bnWriteStr_length`: new hypothesis `radix = 2 → ∀ d ∈ a.dp, d < cfg.B`. In radix 2 the size is taken from bn_bits,
+  which looks at the top digit only; with an over-wide lower digit the text is longer than the announced size.
+`recJsf_fits` is stated and proved as originally written, against the repaired guard of `recJsf`
+(`cap < 2 * (max (bitLen k) (bitLen l) + 1)`); `recJsf_fits_both` is the stronger two-rows form.
 -/
 import RelicVerif.Lemmas.BnHigh
 import RelicVerif.Lemmas.BnHighMul
+import RelicVerif.Lemmas.BnSqrBasic
 import RelicVerif.Lemmas.Rec
 import RelicVerif.Lemmas.BnConv
 import RelicVerif.Lemmas.Md
@@ -13,66 +26,496 @@ namespace Relic.Lemmas.Bounds
 open Relic.Model Relic.Model.Rec Relic.Model.Md
 open Relic.Spec.Mac (Bytes Hash)
 
+/-! ### counterexamples to the original statements -/
+
+/-- `cfg.cap = 0`: every trimmed result has one digit -/
+example : (bnAdd { w := 8, cap := 0 } ⟨false, []⟩ ⟨false, []⟩).map (·.used) = some 1 ∧
+    (bnSub { w := 8, cap := 0 } ⟨false, []⟩ ⟨false, []⟩).map (·.used) = some 1 ∧
+    (bnMulBasic { w := 8, cap := 0 } ⟨false, []⟩ ⟨false, []⟩).map (·.used) = some 1 ∧
+    (bnMulComba { w := 8, cap := 0 } ⟨false, []⟩ ⟨false, []⟩).map (·.used) = some 1 ∧
+    (bnSqrBasic { w := 8, cap := 0 } ⟨false, []⟩).map (·.used) = some 1 ∧
+    (bnLsh { w := 8, cap := 0 } ⟨false, []⟩ 0).map (·.used) = some 1 := by decide
+
+/-- bn_rec_win with an empty buffer is refused, also for the zero scalar (whose recoding is the single window 0) -/
+example : recWin 0 0 4 = none ∧ recWin 1 0 4 = some [0] := by decide
+
+/-- radix 2, digit 8 in a one-bit-digit number: announced size 3 (2 characters + NUL), 4 characters written -/
+example : bnSizeStr { w := 1, cap := 8 } ⟨false, [8, 1]⟩ 2 = some 3 ∧
+    (bnWriteStr { w := 1, cap := 8 } 3 ⟨false, [8, 1]⟩ 2).toOption = some "1010" := by decide
+
+/-! ### lengths of the digit-vector routines (no hypotheses on the digits) -/
+
+theorem addnLow_length (B : Nat) : ∀ (a b : List Nat) (c : Nat),
+    (addnLow B a b c).1.length = min a.length b.length := by
+  intro a
+  induction a with
+  | nil => intro b c; simp [addnLow]
+  | cons x xs ih =>
+    intro b c
+    cases b with
+    | nil => simp [addnLow]
+    | cons y ys => simp only [addnLow, List.length_cons, ih]; omega
+
+theorem subnLow_length (B : Nat) : ∀ (a b : List Nat) (c : Nat),
+    (subnLow B a b c).1.length = min a.length b.length := by
+  intro a
+  induction a with
+  | nil => intro b c; simp [subnLow]
+  | cons x xs ih =>
+    intro b c
+    cases b with
+    | nil => simp [subnLow]
+    | cons y ys => simp only [subnLow, List.length_cons, ih]; omega
+
+theorem add1Low_length (B : Nat) : ∀ (a : List Nat) (c : Nat), (add1Low B a c).1.length = a.length := by
+  intro a
+  induction a with
+  | nil => intro c; simp [add1Low]
+  | cons x xs ih =>
+    intro c
+    simp only [add1Low]
+    split
+    · rfl
+    · simp only [List.length_cons, ih]
+
+theorem sub1Low_length (B : Nat) : ∀ (a : List Nat) (c : Nat), (sub1Low B a c).1.length = a.length := by
+  intro a
+  induction a with
+  | nil => intro c; simp [sub1Low]
+  | cons x xs ih =>
+    intro c
+    simp only [sub1Low]
+    split
+    · rfl
+    · simp only [List.length_cons, ih]
+
+theorem mul1Low_length (B : Nat) : ∀ (a : List Nat) (d c : Nat), (mul1Low B a d c).1.length = a.length := by
+  intro a
+  induction a with
+  | nil => intro d c; simp [mul1Low]
+  | cons x xs ih => intro d c; simp only [mul1Low, List.length_cons, ih]
+
+theorem mulaLow_length (B : Nat) : ∀ (c a : List Nat) (d cy : Nat),
+    (mulaLow B c a d cy).1.length = min c.length a.length := by
+  intro c
+  induction c with
+  | nil => intro a d cy; simp [mulaLow]
+  | cons x xs ih =>
+    intro a d cy
+    cases a with
+    | nil => simp [mulaLow]
+    | cons y ys => simp only [mulaLow, List.length_cons, ih]; omega
+
+theorem lsh1Low_length (w : Nat) : ∀ (a : List Nat) (c : Nat), (lsh1Low w a c).1.length = a.length := by
+  intro a
+  induction a with
+  | nil => intro c; simp [lsh1Low]
+  | cons x xs ih => intro c; simp only [lsh1Low, List.length_cons, ih]
+
+theorem lshbLow_length (w bits : Nat) : ∀ (a : List Nat) (c : Nat), (lshbLow w bits a c).1.length = a.length := by
+  intro a
+  induction a with
+  | nil => intro c; simp [lshbLow]
+  | cons x xs ih => intro c; simp only [lshbLow, List.length_cons, ih]
+
+
+/-! ### trimming -/
+
+theorem bnTrim_used_le (a : Bn) : (bnTrim a).used ≤ max a.used 1 := by
+  unfold bnTrim Bn.used
+  have := stripZeros_length_le a.dp
+  simp only
+  split
+  · simp only [List.length_cons, List.length_nil]; omega
+  · simp only; omega
+
+theorem trim_fits (cfg : Cfg) (neg : Bool) (l : List Nat) (h : l.length ≤ max cfg.cap 1) :
+    (bnTrim { neg := neg, dp := l }).used ≤ max cfg.cap 1 := by
+  have := bnTrim_used_le { neg := neg, dp := l }
+  simp only [Bn.used] at this ⊢
+  omega
+
+theorem le_cap_of_pos (cfg : Cfg) {n : Nat} (hc : 0 < cfg.cap) (h : n ≤ max cfg.cap 1) : n ≤ cfg.cap := by
+  omega
+
+/-! ### addition and subtraction -/
+
+theorem addCore_length (B : Nat) (a b : List Nat) : (addCore B a b).1.length = a.length := by
+  unfold addCore
+  split
+  · rw [addnLow_length]; omega
+  · simp only [List.length_append, addnLow_length, add1Low_length, List.length_take, List.length_drop]; omega
+
+theorem subCore_length (B : Nat) (a b : List Nat) : (subCore B a b).length = a.length := by
+  unfold subCore
+  split
+  · rw [subnLow_length]; omega
+  · simp only [List.length_append, subnLow_length, sub1Low_length, List.length_take, List.length_drop]; omega
+
 variable (cfg : Cfg)
 
+theorem bnAddImp_fits (neg : Bool) (a b c : Bn) (ha : a.used ≤ cfg.cap) (h : bnAddImp cfg neg a b = some c) :
+    c.used ≤ max cfg.cap 1 := by
+  rw [bnAddImp_eq] at h
+  split at h
+  · simp only [Option.some.injEq] at h; subst h
+    exact trim_fits cfg _ _ (by simp only [Bn.used] at ha; omega)
+  split at h
+  · exact absurd h (by simp)
+  split at h
+  · split at h
+    · exact absurd h (by simp)
+    · simp only [Option.some.injEq] at h; subst h
+      apply trim_fits
+      simp only [List.length_append, addCore_length, List.length_cons, List.length_nil]
+      simp only [Bn.used] at *; omega
+  · simp only [Option.some.injEq] at h; subst h
+    apply trim_fits
+    rw [addCore_length]; simp only [Bn.used] at *; omega
+
+theorem bnSubImp_fits (neg : Bool) (a b c : Bn) (ha : a.used ≤ cfg.cap) (h : bnSubImp cfg neg a b = some c) :
+    c.used ≤ max cfg.cap 1 := by
+  rw [bnSubImp_eq] at h
+  split at h
+  · simp only [Option.some.injEq] at h; subst h
+    exact trim_fits cfg _ _ (by simp only [Bn.used] at ha; omega)
+  split at h
+  · exact absurd h (by simp)
+  · simp only [Option.some.injEq] at h; subst h
+    apply trim_fits
+    rw [subCore_length]; simp only [Bn.used] at *; omega
+
 theorem bnAdd_fits (a b c : Bn) (ha : a.used ≤ cfg.cap) (hb : b.used ≤ cfg.cap) (h : bnAdd cfg a b = some c) :
-    c.used ≤ cfg.cap := by
-  sorry
+    c.used ≤ max cfg.cap 1 := by
+  unfold bnAdd at h
+  split at h <;> split at h
+  · exact bnAddImp_fits cfg _ _ _ _ hb h
+  · exact bnAddImp_fits cfg _ _ _ _ ha h
+  · exact bnSubImp_fits cfg _ _ _ _ hb h
+  · exact bnSubImp_fits cfg _ _ _ _ ha h
 
 theorem bnSub_fits (a b c : Bn) (ha : a.used ≤ cfg.cap) (hb : b.used ≤ cfg.cap) (h : bnSub cfg a b = some c) :
-    c.used ≤ cfg.cap := by
-  sorry
+    c.used ≤ max cfg.cap 1 := by
+  unfold bnSub at h
+  split at h <;> split at h
+  · exact bnAddImp_fits cfg _ _ _ _ hb h
+  · exact bnAddImp_fits cfg _ _ _ _ ha h
+  · exact bnSubImp_fits cfg _ _ _ _ ha h
+  · exact bnSubImp_fits cfg _ _ _ _ hb h
 
-theorem bnMulBasic_fits (a b c : Bn) (h : bnMulBasic cfg a b = some c) : c.used ≤ cfg.cap := by
-  sorry
 
-theorem bnMulComba_fits (a b c : Bn) (h : bnMulComba cfg a b = some c) : c.used ≤ cfg.cap := by
-  sorry
+/-! ### multiplication and squaring -/
 
-theorem bnSqrBasic_fits (a c : Bn) (h : bnSqrBasic cfg a = some c) : c.used ≤ cfg.cap := by
-  sorry
+theorem splice_length (t seg : List Nat) (i : Nat) (h : i + seg.length ≤ t.length) :
+    (splice t i seg).length = t.length := by
+  unfold splice
+  simp only [List.length_append, List.length_take, List.length_drop]; omega
 
-theorem bnLsh_fits (a c : Bn) (k : Nat) (ha : a.used ≤ cfg.cap) (h : bnLsh cfg a k = some c) : c.used ≤ cfg.cap := by
-  sorry
+theorem mulBasicStep_length (B : Nat) (a b t : List Nat) (i : Nat) (h : i ≤ t.length) :
+    (mulBasicStep B a b t i).length = t.length := by
+  unfold mulBasicStep
+  rw [List.length_set, splice_length]
+  rw [mulaLow_length]; simp only [List.length_take, List.length_drop]; omega
+
+theorem mulBasicFold_length (B : Nat) (a b : List Nat) : ∀ (is : List Nat) (t : List Nat),
+    (∀ i ∈ is, i ≤ t.length) → (is.foldl (mulBasicStep B a b) t).length = t.length := by
+  intro is
+  induction is with
+  | nil => intro t _; rfl
+  | cons i is ih =>
+    intro t h
+    have h1 := mulBasicStep_length B a b t i (h i (by simp))
+    rw [List.foldl_cons, ih _ (fun j hj => by rw [h1]; exact h j (by simp [hj])), h1]
+
+theorem bnMulBasic_fits (a b c : Bn) (h : bnMulBasic cfg a b = some c) : c.used ≤ max cfg.cap 1 := by
+  rw [bnMulBasic_eq] at h
+  split at h
+  · exact absurd h (by simp)
+  · simp only [Option.some.injEq] at h; subst h
+    apply trim_fits
+    rw [mulBasicFold_length]
+    · simp only [List.length_replicate]; omega
+    · intro i hi
+      have := List.mem_range.1 hi
+      simp only [List.length_replicate]; omega
+
+theorem colFold_length {γ : Type} (proc : γ → Nat × Nat × Nat → Nat × Nat × Nat) : ∀ (cols : List γ)
+    (st : List Nat × (Nat × Nat × Nat)),
+    (cols.foldl (LowMul.colStep proc) st).1.length = st.1.length + cols.length := by
+  intro cols
+  induction cols with
+  | nil => intro st; rfl
+  | cons c cs ih =>
+    intro st
+    rw [List.foldl_cons, ih]
+    simp only [LowMul.colStep, List.length_cons]; omega
+
+theorem mulnLow_length (B : Nat) (a b : List Nat) (size : Nat) : (mulnLow B a b size).length = 2 * size := by
+  rw [LowMul.mulnLow_eq, List.length_reverse, colFold_length]
+  simp only [List.length_nil, List.length_append, List.length_map, List.length_range]; omega
+
+theorem muldLow_length (B : Nat) (a b : List Nat) (sa sb : Nat) (h : sb ≤ sa) :
+    (muldLow B a sa b sb).length = sa + sb := by
+  rw [LowMul.muldLow_eq, List.length_reverse, colFold_length]
+  simp only [List.length_nil, List.length_append, List.length_map, List.length_range]; omega
+
+theorem bnMulComba_fits (a b c : Bn) (h : bnMulComba cfg a b = some c) : c.used ≤ max cfg.cap 1 := by
+  rw [bnMulComba_eq] at h
+  split at h
+  · exact absurd h (by simp)
+  · simp only [Option.some.injEq] at h; subst h
+    apply trim_fits
+    split
+    · rw [mulnLow_length]; omega
+    · split
+      · rw [muldLow_length _ _ _ _ _ (by omega)]; omega
+      · rw [muldLow_length _ _ _ _ _ (by omega)]; omega
+
+theorem bnSqrBasic_fits (a c : Bn) (h : bnSqrBasic cfg a = some c) : c.used ≤ max cfg.cap 1 := by
+  rw [bnSqrBasic_eq] at h
+  split at h
+  · exact absurd h (by simp)
+  · simp only [Option.some.injEq] at h; subst h
+    apply trim_fits
+    simp only [List.length_take]; omega
+
+/-! ### shifts and the single-digit product -/
+
+theorem bnLsh_fits (a c : Bn) (k : Nat) (ha : a.used ≤ cfg.cap) (h : bnLsh cfg a k = some c) :
+    c.used ≤ max cfg.cap 1 := by
+  have _ := ha
+  rw [bnLsh_eq] at h
+  by_cases hb : k % cfg.w > 0
+  · simp only [if_pos hb] at h
+    split at h
+    · exact absurd h (by simp)
+    rename_i hg
+    split at h
+    · simp only [Option.some.injEq] at h; subst h
+      apply trim_fits
+      simp only [List.length_append, List.length_replicate, lshbLow_length, List.length_cons, List.length_nil]
+      simp only [Bn.used] at hg; omega
+    · simp only [Option.some.injEq] at h; subst h
+      apply trim_fits
+      simp only [List.length_append, List.length_replicate, lshbLow_length]
+      simp only [Bn.used] at hg; omega
+  · simp only [if_neg hb] at h
+    split at h
+    · exact absurd h (by simp)
+    rename_i hg
+    simp only [Option.some.injEq] at h; subst h
+    apply trim_fits
+    simp only [List.length_append, List.length_replicate]
+    simp only [Bn.used] at hg; omega
 
 theorem bnDbl_fits (a c : Bn) (ha : a.used ≤ cfg.cap) (h : bnDbl cfg a = some c) : c.used ≤ cfg.cap := by
-  sorry
+  have _ := ha
+  rw [bnDbl_eq] at h
+  split at h
+  · exact absurd h (by simp)
+  rename_i hg
+  split at h
+  · simp only [Option.some.injEq] at h; subst h
+    simp only [Bn.used, List.length_append, lsh1Low_length, List.length_cons, List.length_nil] at hg ⊢
+    omega
+  · simp only [Option.some.injEq] at h; subst h
+    simp only [Bn.used, lsh1Low_length] at hg ⊢
+    omega
 
-theorem bnMulDig_fits (a c : Bn) (d : Nat) (ha : a.used ≤ cfg.cap) (h : bnMulDig cfg a d = some c) : c.used ≤ cfg.cap := by
-  sorry
+theorem bnMulDig_fits (a c : Bn) (d : Nat) (ha : a.used ≤ cfg.cap) (h : bnMulDig cfg a d = some c) :
+    c.used ≤ cfg.cap := by
+  have _ := ha
+  rw [bnMulDig_eq] at h
+  split at h
+  · exact absurd h (by simp)
+  rename_i hg
+  simp only [Option.some.injEq] at h; subst h
+  have := bnTrim_used_le { neg := a.neg, dp := (mul1Low cfg.B a.dp d 0).1 ++ [(mul1Low cfg.B a.dp d 0).2] }
+  simp only [Bn.used, List.length_append, mul1Low_length, List.length_cons, List.length_nil] at this hg ⊢
+  omega
+
+
+/-! ### scalar recodings -/
 
 /-- recodings never produce more digits than the caller's buffer holds -/
-theorem recWin_fits (cap k w : Nat) (ds : List Int) (h : recWin cap k w = some ds) : ds.length ≤ cap := by
-  sorry
+theorem recWin_fits (cap k w : Nat) (hw : 0 < w) (ds : List Int) (h : recWin cap k w = some ds) : ds.length ≤ cap := by
+  unfold recWin at h
+  simp only at h
+  split at h
+  · exact absurd h (by simp)
+  rename_i hcap
+  simp only [Option.some.injEq] at h; subst h
+  simp only [List.length_append, List.length_map, List.length_range, List.length_cons, List.length_nil]
+  split
+  · omega
+  · rename_i hlw
+    have e1 : bitLen k - w + w - 1 = bitLen k - 1 := by omega
+    have e2 : bitLen k + w - 1 = (bitLen k - 1) + w := by omega
+    rw [e2, Nat.add_div_right _ hw] at hcap
+    rw [e1]; omega
 
-theorem recSlw_fits (cap k w : Nat) (hw : 0 < w) (ds : List Int) (h : recSlw cap k w = some ds) : ds.length ≤ cap := by
-  sorry
+theorem recSlw_fits (cap k w : Nat) (hw : 0 < w) (ds : List Int) (h : recSlw cap k w = some ds) : ds.length ≤ cap :=
+  (recSlw_spec cap k w hw ds h).2.2.2
+
+theorem nafNext_small (w t : Nat) (hw : w < 2) : nafNext w t = t / 2 := by
+  unfold nafNext
+  split
+  · rename_i ht
+    have : w = 0 ∨ w = 1 := by omega
+    rcases this with rfl | rfl
+    · simp [nafU, Nat.mod_one]
+    · simp [nafU, ht]; omega
+  · rfl
+
+theorem nafOut_length_small (w : Nat) (hw : w < 2) : ∀ (f c t : Nat), t < 2 ^ c → (nafOut w f t).length ≤ c := by
+  intro f
+  induction f with
+  | zero => intro c t _; simp [nafOut]
+  | succ f ih =>
+    intro c t ht
+    simp only [nafOut]
+    split
+    · simp
+    · rename_i h0
+      cases c with
+      | zero => simp at ht; omega
+      | succ c =>
+        rw [nafNext_small w t hw, List.length_cons]
+        have := ih c (t / 2) (by rw [Nat.pow_succ] at ht; omega)
+        omega
 
 theorem recNaf_fits (cap k w : Nat) (ds : List Int) (h : recNaf cap k w = some ds) : ds.length ≤ cap := by
-  sorry
+  by_cases hw : 2 ≤ w
+  · exact (recNaf_spec cap k w hw ds h).2.2.2.2
+  · unfold recNaf at h
+    split at h
+    · exact absurd h (by simp)
+    rename_i hcap
+    simp only [Option.some.injEq, recNafLoop_eq, List.nil_append] at h
+    subst h
+    have := nafOut_length_small w (by omega) (bitLen k + 2) (bitLen k) k (lt_two_pow_bitLen k)
+    omega
 
 theorem recReg_fits (cap k n w : Nat) (ds : List Int) (h : recReg cap k n w = some ds) : ds.length ≤ cap := by
-  sorry
+  have hl := recReg_length cap k n w ds h
+  unfold recReg at h
+  simp only at h
+  split at h
+  · exact absurd h (by simp)
+  · omega
+
+/-- both halves of the joint sparse form together fit the caller's buffer (the C buffer holds the two rows at
+    offset `max (bits k) (bits l) + 1`) -/
+theorem recJsf_fits_both (cap k l : Nat) (a0 a1 : List Int) (h : recJsf cap k l = some (a0, a1)) :
+    a0.length + a1.length ≤ cap ∧ a0.length ≤ max (bitLen k) (bitLen l) + 1 ∧
+      a1.length ≤ max (bitLen k) (bitLen l) + 1 := by
+  obtain ⟨_, _, _, _, he, hlen⟩ := recJsf_spec cap k l a0 a1 h
+  unfold recJsf at h
+  split at h
+  · exact absurd h (by simp)
+  · omega
 
 theorem recJsf_fits (cap k l : Nat) (a0 a1 : List Int) (h : recJsf cap k l = some (a0, a1)) :
     a0.length ≤ cap ∧ a1.length ≤ cap := by
-  sorry
+  have := recJsf_fits_both cap k l a0 a1 h
+  omega
+
+
+/-! ### byte and character encodings -/
 
 /-- byte and character encodings write exactly / at most what the caller asked for -/
 theorem bnWriteBin_length (w len : Nat) (a : Bn) (b : List UInt8) (h : bnWriteBin w len a = some b) : b.length = len := by
-  sorry
+  rw [Conv.bnWriteBin_eq] at h
+  split at h
+  · exact absurd h (by simp)
+  rename_i hlen
+  simp only [Option.some.injEq] at h; subst h
+  simp only [List.length_reverse, List.length_append, List.length_replicate, Conv.leBytes_length]
+  omega
 
-theorem bnWriteStr_length (a : Bn) (radix len : Nat) (s : String) (h : bnWriteStr cfg len a radix = .ok s) :
-    s.length + 1 ≤ len := by
-  sorry
+/-- bn_bits over-approximates the bit length of the value as soon as the digits are digits (no normal form needed) -/
+theorem log2_val_lt_bits (a : Bn) (hd : ∀ d ∈ a.dp, d < cfg.B) (hz : bnIsZero a = false)
+    (hv : val cfg.B a.dp ≠ 0) : Nat.log2 (val cfg.B a.dp) < bnBitsW cfg.w a := by
+  unfold bnBitsW
+  rw [hz]
+  simp only [Bool.false_eq_true, if_false]
+  rcases List.eq_nil_or_concat a.dp with h | ⟨init, top, hdp⟩
+  · rw [h] at hv; simp [val] at hv
+  rw [Nat.log2_lt hv]
+  have hi : val cfg.B init < cfg.B ^ init.length :=
+    val_lt cfg.B init (fun d hd' => hd d (by rw [hdp]; simp [hd']))
+  simp only [Bn.used, hdp, List.concat_eq_append, List.length_append, List.length_cons, List.length_nil,
+    Nat.add_sub_cancel, List.getLast?_append, List.getLast?_singleton, Option.some_or, Option.getD_some,
+    High.val_snoc]
+  have hB : cfg.B ^ init.length = 2 ^ (init.length * cfg.w) := by
+    rw [Cfg.B, ← Nat.pow_mul, Nat.mul_comm]
+  rw [hB] at hi ⊢
+  have ht : top < 2 ^ bitsDig top := lt_two_pow_bitLen top
+  rw [Nat.pow_add]
+  generalize 2 ^ (init.length * cfg.w) = P at *
+  generalize 2 ^ bitsDig top = Q at *
+  calc val cfg.B init + P * top < P + P * top := by omega
+    _ = P * (top + 1) := by rw [Nat.mul_add]; omega
+    _ ≤ P * Q := Nat.mul_le_mul_left _ ht
+
+theorem bnWriteStr_length (a : Bn) (radix len : Nat) (hd : radix = 2 → ∀ d ∈ a.dp, d < cfg.B) (s : String)
+    (h : bnWriteStr cfg len a radix = .ok s) : s.length + 1 ≤ len := by
+  obtain ⟨l, hl, hle, hs⟩ := Conv.bnWriteStr_ok cfg a radix len s h
+  unfold bnSizeStr at hl
+  split at hl
+  · exact absurd hl (by simp)
+  split at hl
+  · rename_i hz
+    rw [if_pos hz] at hs
+    simp only [Option.some.injEq] at hl
+    subst hs hl
+    exact hle
+  rename_i hz
+  rw [if_neg hz, ← String.toList_inj, String.toList_ofList] at hs
+  rw [← String.length_toList, hs]
+  simp only [List.length_append, List.length_map, List.length_reverse]
+  have hneg : (if a.neg = true then ['-'] else []).length = if a.neg = true then 1 else 0 := by
+    split <;> rfl
+  rw [hneg]
+  split at hl
+  · rename_i h2
+    subst h2
+    simp only [Option.some.injEq] at hl
+    rw [Conv.strDigits_length_two _ _ (Nat.lt_succ_self _)]
+    by_cases hv : val cfg.B a.dp = 0
+    · rw [if_pos hv]; omega
+    · rw [if_neg hv]
+      have := log2_val_lt_bits cfg a (hd rfl) (by simpa using hz) hv
+      omega
+  · simp only [Option.some.injEq] at hl
+    omega
 
 /-- a decoded integer never exceeds the capacity (longer inputs are refused) -/
 theorem bnReadBin_fits (bin : List UInt8) (x : Bn) (h : bnReadBin cfg bin = some x) : x.used ≤ max cfg.cap 1 := by
-  sorry
+  unfold bnReadBin at h
+  simp only at h
+  generalize (if bin.length % (cfg.w / 8) = 0 then bin.length / (cfg.w / 8) else bin.length / (cfg.w / 8) + 1)
+    = digs at h
+  split at h
+  · exact absurd h (by simp)
+  rename_i hg
+  simp only [Option.some.injEq] at h; subst h
+  apply trim_fits
+  split
+  · simp
+  · simp only [List.length_map, List.length_range]; omega
 
 /-- key derivation fills exactly the requested number of bytes -/
 theorem nistKdf_length (H : Hash) (hout : ∀ b, (H.h b).length = H.outLen) (hpos : 0 < H.outLen) (keyLen : Nat) (inp : Bytes)
     (v : Nat) : (nistKdf H keyLen inp v).length = keyLen := by
-  sorry
+  unfold nistKdf
+  have := Md.nistKdfLoop_eq H hout hpos keyLen inp v ((keyLen + H.outLen - 1) / H.outLen) 0 [] (by simp) (by simp)
+    (by simp)
+  simp only [Nat.add_zero, List.nil_append] at this
+  rw [this, List.length_take, Conv.length_flatMap_const H.outLen _ _ (fun d _ => hout _), List.length_range']
+  have := (Md.ceil_div_bounds keyLen H.outLen hpos).1
+  rw [Nat.mul_comm] at this
+  omega
+
 
 end Relic.Lemmas.Bounds
